@@ -18,6 +18,10 @@ type Op struct {
 	N    int       `json:"n,omitempty"`
 	Lens []int     `json:"lens,omitempty"` // striped: per-channel slice length, -1 = nil
 	Vals []kit.Val `json:"vals,omitempty"` // value pool for writers: element k is Vals[k % len]
+	// Share (writeStriped): 0 = every input channel has storage of its own; 1 = the non-nil channels are
+	// prefixes of one caller array (same first element, own lengths: one signal fanned out); 2 = they are
+	// consecutive pieces of one flat caller array. A writer only reads its input, so sharing cannot matter.
+	Share int `json:"share,omitempty"`
 }
 
 // Case: a window [A,Bf) (+Partial extra samples) of a root of Kr frames with C
@@ -116,6 +120,9 @@ func (c *Case) valid() bool {
 					return false
 				}
 			}
+			if op.Share < 0 || op.Share > 2 || (op.Share != 0 && op.Kind != "writeStriped") {
+				return false
+			}
 		default:
 			return false
 		}
@@ -164,8 +171,22 @@ func run[S, B signal.SignalTypes](c *Case) (res kit.Result) {
 		res.Class("partialFrame")
 	}
 	wrote := false
+	// ledger: every slice the caller handed to an earlier call, with what it held when that call
+	// returned. A later call was not given these slices and must not touch them.
+	type kept struct {
+		what string
+		s    []S
+		want []S
+	}
+	var ledger []kept
+	remember := func(what string, s []S) {
+		if s != nil {
+			ledger = append(ledger, kept{what, s[:cap(s)], append([]S(nil), s[:cap(s)]...)})
+		}
+	}
 
 	for oi, op := range c.Ops {
+		earlier := len(ledger)
 		what := fmt.Sprintf("op %d (%s)", oi, op.Kind)
 		switch op.Kind {
 		case "write":
@@ -195,6 +216,7 @@ func run[S, B signal.SignalTypes](c *Case) (res kit.Result) {
 				res.Class("lenMismatch")
 			}
 			wrote = true
+			remember(what+": input slice", in)
 		case "read":
 			out := spare[S](op.N, oi)
 			want := append([]S(nil), out[:cap(out)]...)
@@ -225,24 +247,56 @@ func run[S, B signal.SignalTypes](c *Case) (res kit.Result) {
 			if wrote {
 				res.Class("roundTrip")
 			}
+			remember(what+": output slice", out)
 		case "writeStriped":
 			in := make([][]S, C)
 			keep := make([][]S, C)
-			longest := 0
+			longest, total := 0, 0
 			uneven := false
+			starts := make([]int, C) // Share 2: where channel ch starts in the flat array
+			for ch, l := range op.Lens {
+				starts[ch] = total
+				if l > longest {
+					longest = l
+				}
+				if l > 0 {
+					total += l
+				}
+			}
+			// vi: which element of the value pool input sample i of channel ch holds
+			vi := func(ch, i int) int { return ch*7 + i }
+			var shared []S
+			switch op.Share {
+			case 1:
+				vi = func(ch, i int) int { return i }
+				shared = spare[S](longest, oi)
+			case 2:
+				vi = func(ch, i int) int { return starts[ch] + i }
+				shared = spare[S](total, oi)
+			}
+			if op.Share != 0 && len(op.Vals) > 0 {
+				for i := range shared {
+					shared[i] = kit.As[S](op.Vals[i%len(op.Vals)])
+				}
+				res.Class("stripedInputChannelsShareStorage")
+			}
 			for ch, l := range op.Lens {
 				if l < 0 {
 					uneven = true
 					continue
 				}
-				in[ch] = spare[S](l, oi+ch)
-				for i := range in[ch] {
-					in[ch][i] = kit.As[S](op.Vals[(ch*7+i)%len(op.Vals)])
+				switch op.Share {
+				case 1:
+					in[ch] = shared[:l]
+				case 2:
+					in[ch] = shared[starts[ch] : starts[ch]+l]
+				default:
+					in[ch] = spare[S](l, oi+ch)
+					for i := range in[ch] {
+						in[ch][i] = kit.As[S](op.Vals[vi(ch, i)%len(op.Vals)])
+					}
 				}
 				keep[ch] = append([]S(nil), in[ch][:cap(in[ch])]...)
-				if l > longest {
-					longest = l
-				}
 				if l != op.Lens[0] || l == 0 {
 					uneven = true
 				}
@@ -256,7 +310,7 @@ func run[S, B signal.SignalTypes](c *Case) (res kit.Result) {
 			for ch := 0; ch < C; ch++ {
 				for i := 0; i < m; i++ {
 					if i < len(in[ch]) {
-						model[off+C*i+ch] = kit.As[B](op.Vals[(ch*7+i)%len(op.Vals)])
+						model[off+C*i+ch] = kit.As[B](op.Vals[vi(ch, i)%len(op.Vals)])
 					} else {
 						model[off+C*i+ch] = 0
 					}
@@ -290,6 +344,9 @@ func run[S, B signal.SignalTypes](c *Case) (res kit.Result) {
 				res.Class("lenMismatch")
 			}
 			wrote = true
+			for ch := range in {
+				remember(fmt.Sprintf("%s: input channel %d", what, ch), in[ch])
+			}
 		case "readStriped":
 			out := make([][]S, C)
 			want := make([][]S, C)
@@ -352,6 +409,18 @@ func run[S, B signal.SignalTypes](c *Case) (res kit.Result) {
 			if wrote {
 				res.Class("roundTrip")
 			}
+			for ch := range out {
+				remember(fmt.Sprintf("%s: output channel %d", what, ch), out[ch])
+			}
+		}
+		for _, k := range ledger[:earlier] {
+			if d := kit.DiffSlice("a slice this call was not given ("+k.what+", as that call left it)", k.s, k.want); d != "" {
+				res.Failf("%s: %s", what, d)
+				return
+			}
+		}
+		if earlier > 0 {
+			res.Class("earlierCallersSlicesRechecked")
 		}
 		// frame condition: the whole root storage, and both headers
 		if d := kit.DiffSlice("root storage", kit.Snap(root), model); d != "" {
@@ -401,6 +470,7 @@ func FP(c *Case) uint64 {
 		h.Str(op.Kind)
 		h.Int(op.N)
 		h.Ints(op.Lens)
+		h.Int(op.Share)
 		h.Vals(op.Vals)
 	}
 	return h.Sum()
@@ -423,9 +493,20 @@ func Gen(t *rapid.T) *Case {
 		c.Partial = rapid.IntRange(1, c.C-1).Draw(t, "partial")
 	}
 	c.Fix = kit.GenFix(t, "fix", c.C)
+	long := kit.Chance(t, "longWindow", 1, 120)
+	if long {
+		// thousands of frames, few channels, several calls: block-wise paths of the striped forms
+		c.C = rapid.IntRange(1, 3).Draw(t, "cLong")
+		c.Kr = rapid.IntRange(4090, 9000).Draw(t, "krLong")
+		c.A, c.Partial = rapid.IntRange(0, 2).Draw(t, "aLong"), 0
+		c.Bf = c.Kr - rapid.IntRange(0, 2).Draw(t, "spareLong")
+	}
 	n := c.C*(c.Bf-c.A) + c.Partial
 	frames := c.Bf - c.A
 	nops := rapid.IntRange(1, 3).Draw(t, "nops")
+	if long {
+		nops = rapid.IntRange(3, 5).Draw(t, "nopsLong")
+	}
 	for i := 0; i < nops; i++ {
 		var op Op
 		kinds := []string{"write", "read", "writeStriped", "readStriped"}
@@ -448,6 +529,11 @@ func Gen(t *rapid.T) *Case {
 					op.Lens[ch] = -1
 				default:
 					op.Lens[ch] = kit.GenLenRel(t, "len", frames)
+				}
+			}
+			if op.Kind == "writeStriped" {
+				if sh := rapid.IntRange(0, 5).Draw(t, "share"); sh <= 2 {
+					op.Share = sh
 				}
 			}
 		}
